@@ -48,8 +48,8 @@ ASSUMPTIONS = [
     "difference: the sandbox is rebuilt from nothing); replays always build a new sandbox",
 ]
 
-NAMES = ["main", "a/b", "a.b", "x.text", ".hid", "../x", "a/../b", "../../x"]
-BASES = ["", "b", "b/..", "../b", "../.."]
+NAMES = ["main", "a/b", "a.b", "x.text", ".hid", "../x", "a/../b", "../../x", ".."]
+BASES = ["", "b", "b/..", "../b", "../..", ".."]
 FLAGS = ("temp", "clean", "filed", "extensioned", "reuse", "clear")
 STRICT_INTERMEDIATE = False      # True: persistent intermediate directories left behind by clear are violations too
 
@@ -84,9 +84,10 @@ SHAPE_DOC = {
     33: "shape 31 + reopen(), close(clear=True)",
     40: "new(name, base, temp, reopen=False), FilerDoer(filer).enter(temp=t), .exit()   t = None/True/False from (reuse, clear)",
     41: "shape 40 + reopen(), close(clear=True)",
+    42: "shape 40 with the filer closed (without clear) by somebody else between FilerDoer.enter and FilerDoer.exit",
 }
-QUICK_SHAPES = (0, 1, 10, 11, 12, 20, 30, 31, 40)
-THOROUGH_SHAPES = (0, 1, 2, 3, 10, 11, 12, 20, 21, 30, 31, 32, 33, 40, 41)
+QUICK_SHAPES = (0, 1, 10, 11, 12, 20, 30, 31, 40, 42)
+THOROUGH_SHAPES = (0, 1, 2, 3, 10, 11, 12, 20, 21, 30, 31, 32, 33, 40, 41, 42)
 DOER_TEMP = {(0, 0): None, (0, 1): True, (1, 0): False}
 
 
@@ -99,7 +100,7 @@ def valid(flags, shape):
     temp, clean, filed, extensioned, reuse, clear = [int(x) for x in flags]
     if shape in (10, 11, 12):
         return not reuse and not clear           # remake takes neither
-    if shape in (40, 41):
+    if shape in (40, 41, 42):
         return (reuse, clear) in DOER_TEMP and not clean
     return True
 
@@ -123,8 +124,11 @@ def plan(flags, shape):
             steps.append(("reopen", {"temp": not temp, "reuse": reuse}))
         steps.append(("openFiler.exit", {}))
         return steps + (ROUND2 if shape in (32, 33) else [])
-    if shape in (40, 41):
-        steps = [("new", {}), ("FilerDoer.enter", {"temp": DOER_TEMP[(int(reuse), int(clear))]}), ("FilerDoer.exit", {})]
+    if shape in (40, 41, 42):
+        steps = [("new", {}), ("FilerDoer.enter", {"temp": DOER_TEMP[(int(reuse), int(clear))]})]
+        if shape == 42:
+            steps.append(("close", {"clear": False}))
+        steps.append(("FilerDoer.exit", {}))
         return steps + (ROUND2 if shape == 41 else [])
     raise ValueError("unknown shape %r" % (shape,))
 
@@ -451,9 +455,12 @@ def run_case(top, name, base, flags, shape):
                 d = os.path.dirname(newpath)
                 sp = os.path.join(d, SIBLING)
                 if under(d, "outer") and after.get(d, "").startswith("d") and sp not in after and sp != newpath:
-                    with open(os.path.join(top, sp), "w") as f:
-                        f.write("sibling")
-                    after[sp] = fsig(os.lstat(os.path.join(top, sp)))
+                    try:
+                        with open(os.path.join(top, sp), "w") as f:
+                            f.write("sibling")
+                        after[sp] = fsig(os.lstat(os.path.join(top, sp)))
+                    except OSError:        # the directory is not what the snapshot says (e.g. replaced meanwhile): nothing planted
+                        after.pop(sp, None)
             before = after
             if err is not None:
                 break
